@@ -142,6 +142,34 @@ def gen(rng, idx, tier):
             kerning.append([rng.choice(letters), rng.choice(neutral), -30])
         if len(neutral) >= 2 and rng.random() < 0.5:
             kerning.append([neutral[0], neutral[1], -15])
+    # ---- digits of a script the font has no letters of (Arabic-Indic / Devanagari numerals in
+    # a font without Arabic / Devanagari): their Script_Extensions name several scripts, none of
+    # them supported - they are common glyphs here, whatever their Script property says
+    stray_digits = None
+    if not chain and rng.random() < 0.08:
+        if not ({"Arab"} & set(scripts)):
+            sd_ = [("zero-ar", 0x660), ("one-ar", 0x661)]
+        elif not ({"Deva"} & set(scripts)):
+            sd_ = [("zero-deva", 0x966), ("one-deva", 0x967)]
+        else:
+            sd_ = []
+        sd_ = [(n_, u_) for n_, u_ in sd_ if n_ not in desc]
+        if len(sd_) == 2:
+            for n_, u_ in sd_:
+                glyphs.append(S._spec(rng, n_, [u_]))
+                desc[n_] = S.describe(n_, [u_], "digit")
+                by_name[n_] = glyphs[-1]
+            kerning.append([sd_[0][0], sd_[1][0], -20])
+            mkeys_ = sorted({a["name"][1:] for g in glyphs for a in g["anchors"]
+                             if a["name"].startswith("_") and not a["name"][1:].isdigit()})
+            if mkeys_:
+                # the digits take marks like any base
+                for n_, _u in sd_:
+                    by_name[n_]["anchors"].append({"name": mkeys_[0], "x": 250, "y": 620})
+            letters_ = [n for n in desc if desc[n]["kind"] == "letter"]
+            if letters_:
+                kerning.append([rng.choice(letters_), sd_[0][0], -15])
+            stray_digits = [n_ for n_, _ in sd_]
     # ---- a right-to-left script whose ONLY kerning is against a European digit: such pairs are
     # dropped by the kern writer (ambiguous direction), so the script must end up without any
     # generated kerning - and without a script entry made by the kern writer
@@ -209,6 +237,8 @@ def gen(rng, idx, tier):
     for l, r_, _v in kerning:
         for side in (l, r_):
             kglyphs.update(groups.get(side, [side]))
+    # (digits of a script the font has no letters of do not make that script 'kerned')
+    kglyphs -= set(stray_digits or [])
     kscripts = sorted({sc for n in kglyphs for sc in desc[n]["script"]} - {"Zyyy", "Zinh"})
     all_tags = _tags(list(scripts) + kscripts)
     kerned_tags = _tags(kscripts)
@@ -253,7 +283,7 @@ def gen(rng, idx, tier):
         "lib": rng.choice(["defcon", "ufoLib2"]),
         "scripts": scripts,
         "kerned_scripts": kerned,
-        "ambiguous_only": ambiguous_only,
+        "ambiguous_only": ambiguous_only, "stray_digits": stray_digits,
         "variable": stratum == "default" and not skip_export and rng.random() < 0.1,
         "foreign": foreign,
         "ufo": {"glyphs": glyphs, "info": {"unitsPerEm": 1000, "familyName": "T", "styleName": "R",
@@ -301,6 +331,8 @@ def run(case):
             counters["default_" + k] = counters.get("default_" + k, 0) + n
 
     bump("cases")
+    if case.get("stray_digits"):
+        bump("digits_of_a_script_without_letters_in_the_font")
     if case.get("ambiguous_only"):
         bump("rtl_script_whose_only_kerning_is_dropped_as_ambiguous")
     if case.get("foreign"):
@@ -354,7 +386,9 @@ def run(case):
     def belongs(glyph, tag):
         ss = gscripts.get(glyph, set())
         if tag == "DFLT":
-            return (not ss) or any(not (set(S.ot_script_tags(s)) & present_tags) for s in ss)
+            # script-neutral glyphs, and glyphs NONE of whose scripts has a script record of its
+            # own (a glyph shared by several scripts is served by the records of those present)
+            return (not ss) or all(not (set(S.ot_script_tags(s)) & present_tags) for s in ss)
         return any(tag in S.ot_script_tags(s) for s in ss)
 
     # ---- generated positioning lookups and the glyphs they act on
